@@ -172,7 +172,7 @@ def _history_shapes(behs):
 
 
 def _mbt(ctx):
-    nb = 1500 if ctx.quick else 12000
+    nb = 2400 if ctx.quick else 12000
     depth = 30 if ctx.quick else 40
     nreq = 7 if ctx.quick else 10
     from concurrent.futures import ThreadPoolExecutor
